@@ -22,7 +22,8 @@ import (
 // establishment for an unknown node, which produces no response); Dup(p, seq) = byte-identical copy of the
 // datagram sent first under (p, seq); Expire(id) for every entry of the real receive-transaction table (the
 // harness stops the far-future timer and posts the expiry through the public entry point) and for the most
-// recently expired entry again (a stale, already queued expiry).
+// recently expired entry again (a stale, already queued expiry); ExpireTx(id): a stale expiry of a transmit
+// transaction carrying the id of a retained receive transaction (both tables key by "<addr>-<seq>").
 // State key: server dump without transmit transactions + receive table (id -> response hash) + data plane +
 // the reference's retained-request map.
 
@@ -124,6 +125,11 @@ func (c *c06) Enabled() []seqx.Event {
 		x := seqx.Ev("Expire", i)
 		x.N = "ExpireRx(" + idxName(i) + ")"
 		ev = append(ev, x)
+		// a stale expiry of a TRANSMIT transaction whose id equals this entry's (ids are "<addr>-<seq>" in both
+		// tables; the UPF's own requests to that peer count from small numbers too): it must not touch the entry
+		y := seqx.Ev("ExpireTx", i)
+		y.N = "StaleExpireTx(" + idxName(i) + ")"
+		ev = append(ev, y)
 	}
 	if n := len(c.expired); n > 0 && !inTable[c.expired[n-1]] {
 		x := seqx.Ev("Expire", c.expired[n-1])
@@ -349,6 +355,26 @@ func (c *c06) Apply(e seqx.Event) seqx.StepResult {
 			}
 			j.Tag("dup-reanswered")
 		}
+	case "ExpireTx":
+		p, seq := int(e.A[0]/16), uint32(e.A[0]%16)
+		id := c.realID(p, seq)
+		d0 := c.W.V.Dump(pfcp.DumpOpt{NoTrans: true, NoExtra: true}) + c.W.D.Dump()
+		o = c.W.Expire(true, id)
+		if j.Crashed(c.W, o) {
+			break
+		}
+		if c.realID(p, seq) == "" {
+			j.Fail("tx-expiry-releases-rx-entry", "a stale transmit-transaction expiry with the id of receive transaction %s released that entry before its window elapsed", idxName(e.A[0]))
+		}
+		if d1 := c.W.V.Dump(pfcp.DumpOpt{NoTrans: true, NoExtra: true}) + c.W.D.Dump(); d0 != d1 || len(o.Calls) != 0 {
+			j.Fail("expiry-side-effect", "stale transmit expiry %s changed session state", idxName(e.A[0]))
+		}
+		for q := range o.Out {
+			if len(o.Out[q]) > 0 {
+				j.Fail("expiry-sends", "a stale transmit-transaction expiry sent a datagram to %c", 'A'+q)
+			}
+		}
+		j.Tag("stale-tx-expiry")
 	case "Expire":
 		p, seq := int(e.A[0]/16), uint32(e.A[0]%16)
 		id := c.realID(p, seq)
